@@ -8,7 +8,7 @@
 (* accepted; the second words with y >= j have relative length             *)
 (* (x_m + u - j)/p1: to 2^-44.                                             *)
 (***************************************************************************)
-EXTENDS Limb14, BtpeTable, H2peTable, PdTable, MtTable, ChengTable, Rej64Table, GeoTable, Integers, Sequences, TLC, Json, IOUtils
+EXTENDS Limb14, BtpeTable, H2peTable, PdTable, MtTable, ChengTable, Rej64Table, GeoTable, BinvTable, Integers, Sequences, TLC, Json, IOUtils
 
 TH == "TIER" \in DOMAIN IOEnv /\ IOEnv.TIER = "thorough"
 BTabX == IF TH THEN BTabT ELSE BTab
@@ -18,6 +18,7 @@ MTabX == IF TH THEN MTabT ELSE MTab
 CTabX == IF TH THEN CTabT ELSE CTab
 JTabX == IF TH THEN JTabT ELSE JTab
 GTabX == IF TH THEN GTabT ELSE GTab
+VTabX == IF TH THEN VTabT ELSE VTab
 Rec == ndJsonDeserialize(IOEnv.TRACE)
 VARIABLE l
 Ev == Rec[l]
@@ -78,15 +79,24 @@ Rule == /\ Ev.res = "Ok"
              \* Geometric(p), trivial algorithm (p >= 2/3): exactly (floor(p 2^53) + 1) 2^11 words end the call with the value 0
              [] Ev.op = "geot" -> LET a == GTabX[Ev.case] IN
                                   /\ a.triv /\ Ev.out_ok /\ Cmp(Ev.T, a.succ) = 0
-             \* Bringmann-Friedrich: the documented k (read off the largest remainder 2^k - 1) ...
+             \* Bringmann-Friedrich: the documented k (read off the largest remainder 2^k - 1; any k gives the documented law, so where the
+             \* constructor's comparison with 1/2 is within f64 noise - strict FALSE - a neighbour is accepted) ...
              [] Ev.op = "geok" -> LET a == GTabX[Ev.case] IN
-                                  /\ ~a.triv /\ Ev.out_ok /\ Ev.k = a.k
-             \* ... the words continuing the D loop are a prefix of relative length (1-p)^(2^k) ...
+                                  /\ ~a.triv /\ Ev.out_ok /\ (IF a.strict THEN Ev.k = a.k ELSE \E i \in 1..Len(a.ks) : a.ks[i] = Ev.k)
+             \* ... the words continuing the D loop are a prefix of relative length (1-p)^(2^k), k the measured one ...
              [] Ev.op = "geopi" -> LET a == GTabX[Ev.case] IN
-                                   /\ ~a.triv /\ Ev.out_ok /\ Near14(Ev.T, a.pifrac, 64 - a.pitol)
+                                   /\ ~a.triv /\ Ev.out_ok
+                                   /\ \E i \in 1..Len(a.ks) : a.ks[i] = Ev.k /\ Near14(Ev.T, a.pifracs[i], 64 - a.pitol)
              \* ... and the uniform words accepting the remainder m are a prefix of relative length (1-p)^m
              [] Ev.op = "geom" -> LET a == GTabX[Ev.case].ms[Ev.i] IN
                                   /\ Ev.out_ok /\ Near14(Ev.T, a.frac, 64 - a.tol)
+             \* BINV (Binomial, n min(p, 1-p) < 10): one word per try, value monotone in the word; the one-word returns are a prefix of
+             \* W1 words (a try whose search passes 110 is repeated, which conditions the law on the one-word returns; at least half of the words) and those with value <= x a prefix of T[x]:
+             \* T[x] / W1 = CDF(x) of the documented law, to 2^-40 (cross-multiplied, exact)
+             [] Ev.op = "binv" -> LET a == VTabX[Ev.case] IN
+                                  /\ Ev.mono /\ Len(Ev.T) = Len(a.xs)
+                                  /\ Cmp(Ev.W1, Pow2(63)) >= 0
+                                  /\ \A i \in 1..Len(a.xs) : Cmp(AbsDiff(Mul(Ev.T[i], Pow2(64)), Mul(a.xs[i].cdf, Ev.W1)), Pow2(128 - 40)) <= 0
              [] OTHER -> FALSE
 
 TInit == l = 1
